@@ -166,7 +166,7 @@ WS = [9, 10, 11, 12, 13, 28, 29, 30, 31, 32, 133, 160, 5760] + list(range(8192, 
 ORIGINS = ["https://example.org/repo.git", "a;b", "a%b", "%3B", "%25", "a=b;c=d", "%zz", "%", "%%", ";", ";;", "%3", "%3b",
            "%253B", "é", "日本語/リポ", "\U0001f600", "\ud800", "\udfff", "\ud800%41", "�", "%C3é", "é%é;", "%C3%A9",
            "%E2%82", "%F0%9F%98%80", "x%ED%A0%80", "", "=", "http://h/?a=1&b=%20", "%c3%28", "é;%;é", "~_.-/:@!$&'()*+,"]
-WS_ORIGINS = ["a b", " ", "　x", "a\tb", "x ", " ", "\x85%C2", "é   é"]
+WS_ORIGINS = ["a b", " ", "\u3000x", "a\tb", "x\u00a0", "\u2028", "\x85%C2", "\u00e9\u2003\u00e9", "a\nb", "\x1c;%"]
 ALPHA = [ord(c) for c in "a;%=3B25/:-"] + [0xE9, 0x20AC, 0x1F600, 0xD800, 0xFFFD, 0xC3]
 
 
